@@ -133,3 +133,12 @@ Definition wire_code (r : res (list field)) : bytes :=
 Definition wire_exh (msg packed : list N) (pelem : list (N * N)) (maxdepth : Z) (lo hi : N)
                     (stream : bytes) : list nat :=
   exh_check (fun d => wire_code (parse_raw msg packed pelem maxdepth d)) lo hi stream.
+
+(* Protowire::serialize of an annotated object: the plans the object gives and what came out *)
+Record plcase := { pl_plans : list plan; pl_out : option bytes }.
+Definition check_plans (c : plcase) : list nat :=
+  match enc_plans (pl_plans c), pl_out c with
+  | Some a, Some b => if bytes_eqb a b then [] else [1%nat]
+  | None, None => []
+  | _, _ => [1%nat]
+  end.
